@@ -377,6 +377,9 @@ func declaredInputsRule(c *Ctx, r *Report, rule string, pick func(ai accessorInp
 			if ai.sect == nil && len(ai.atoms) == 0 {
 				continue // reads nothing of its receiver
 			}
+			if ai.fn.Object() != nil && !ai.fn.Object().Exported() {
+				continue // an unexported helper: its reads are judged through the exported accessors that call it (effects are transitive)
+			}
 			n++
 			r.bad(rule, name, c.fnPos(ai.fn), fmt.Sprintf("accessor reads %v%v but has neither a regular name nor an entry in the reviewed declared-inputs table (undecided = fail)", ai.atoms, ai.sect))
 			continue
